@@ -11,7 +11,8 @@ H=$(git -C /repo rev-parse HEAD)
 one() {
   id=$1; W=$B/wt-$id
   git -C /repo worktree add -q --detach $W $H || { echo "$id worktree failed"; return; }
-  if ! ( cd $W && git apply /verif/seeded/$id/patch.diff ); then echo "$id: patch does not apply" > $B/out/$id.txt; git -C /repo worktree remove --force $W; return; fi
+  pf=/verif/seeded/$id/patch.diff; [ -f /verif/seeded/$id/patch_rebased.diff ] && pf=/verif/seeded/$id/patch_rebased.diff
+  if ! ( cd $W && git apply $pf ); then echo "$id: patch does not apply" > $B/out/$id.txt; git -C /repo worktree remove --force $W; return; fi
   checks=$(/venv/bin/python -c "import json,sys; r=json.load(open('/verif/seeded/results.json')).get('$id',{}); print(' '.join(sorted({x.split()[0] for x in r.get('ran',[])} | {'$id'[:3]})))")
   : > $B/out/$id.txt
   for c in $checks; do
